@@ -2095,7 +2095,7 @@ class Cache:
         """
         select = (
             'SELECT rowid, expire_time, filename FROM Cache'
-            ' WHERE ? < expire_time AND expire_time < ?'
+            ' WHERE ? <= expire_time AND expire_time < ?'
             ' ORDER BY expire_time LIMIT ?'
         )
         args = [0, now or time.time(), 100]
